@@ -253,7 +253,7 @@ class Block:
         transactions = []
 
         index = 0
-        while parse_transactions and raw.tell() < txs_data_size:
+        while parse_transactions and raw.tell() < txs_data_size and len(transactions) < tx_count:
             if limit != 0 and len(transactions) >= limit:
                 break
             t = Transaction.parse_bytesio(raw, strict=False, index=index)
